@@ -65,6 +65,21 @@ NOTES = {
     ("C19", "m5"): "schedule-dependent (an SSE subscriber leaving while a write emits): caught by C13 (slow-subscriber runs + Close), C19's requests are sequential",
     ("C19", "m6"): "missed at first: no route got URL parameters; paging parameters for /export added",
     ("C10", "m6"): "same change as C11 m4 (independent agents)",
+    # round 4 (schedule / crash point / clock only)
+    ("C01", "m7"): "a key-value write racing the start of a compaction: C01 drives the engine from one goroutine; caught by C14 (concurrent writers + admin, acknowledged-write oracle)",
+    ("C01", "m8"): "writes during the *second* snapshot of a process: caught by C14",
+    ("C02", "m7"): "needs a write concurrent with a snapshot, a crash between the swap-file write and its rename, and a second generation (write, snapshot, restart) on the recovered directory: missed at first by C14 too; mid-operation crash images with a second-generation pass added to C14",
+    ("C02", "m8"): "same change as C01 m7 (independent agents): caught by C14",
+    ("C14", "m8"): "same change as C02 m7 (independent agents)",
+    ("C16", "m8"): "same change as C01 m7, seen through a revocation: caught by C14",
+    ("C12", "m7"): "missed at first: C12's crash images ended on frame boundaries; images in the middle of a log write (torn tail) added",
+    ("C13", "m7"): "missed at first: nobody updated the metadata of a node somebody else deletes; setmeta / reinforce of the shared ids added (three-party lock cycle with a snapshot, reported as a stall)",
+    ("C13", "m8"): "missed at first: C13 never issued a batch insert; overlapping batches with metadata added - the free-running -race tier sees the unlocked map read",
+    ("C13", "m9"): "agent's extra deliverable (adopted as m9): missed at first, overlapping batches were too rare; every client now also starts with one in a third of the runs (lock-order cycle, reported as a stall)",
+    ("C14", "m7"): "a delete between its journal write and its cascade registration when a snapshot starts, then Close: a graph effect, caught by C12 (C14 has no edges)",
+    ("C18", "m7"): "missed at first: the arena state was only saved with everything stopped; a save concurrent with the mutator and its consistency oracle added",
+    ("C18", "m8"): "engine-level (racing first inserts train an int8 quantiser twice): missed at first; racing first inserts on a fresh int8 index and a read-back oracle added to C13 - which first exposed the data race 792751e on the unchanged tree",
+    ("C16", "m7"): "**blind spot**: the window lies between two statements with no lock and no file call in between (namespace check in the middleware, body decode in the handler) - atomic to the cooperative scheduler, and C16's requests are sequential. Not caught, not claimed",
 }
 print("| prop | change | what it breaks (agent's title) | demo confirmed | caught by | note |")
 print("|---|---|---|---|---|---|")
